@@ -185,18 +185,16 @@ Theorem C18_float_list_reject : forall fixed cap sl w bs, w < 64 ->
 Proof. exact float_list_reject. Qed.
 Print Assumptions C18_float_list_reject.
 
-(* OPEN FINDINGS on the tree (third audit): F-PY-NPSCALAR (regression of 4403124), F-PY-EXCCLASS, F-PY-ALIASCLASH.  Their fixes are in
-   design_notes/C18_npscalar_fix.patch (first two facts) and design_notes/C18_alias_clash_fix.patch (third).  WHEN THEY LAND flip the
-   corresponding `false` to `true` (the example fails until flipped); C18_npscalar_wrap_refuted then belongs to History only. *)
+(* F-PY-NPSCALAR, F-PY-EXCCLASS and F-PY-ALIASCLASH are fixed in /repo (f2f61d1): the exact element check, the OverflowError -> ValueError
+   conversion and the alias guard are REQUIRED; what the code did before is recorded in History/C18_history.v *)
 Example C18_open_findings_round9 :
-  t_src_exact tmpl_gen = false /\ exc_overflow_wrapped_gen = false /\ alias_guard_gen = false.
+  t_src_exact tmpl_gen = true /\ exc_overflow_wrapped_gen = true /\ alias_guard_gen = true.
 Proof. repeat split; reflexivity. Qed.
 
-(* the reject / legality theorems below are about TGf = the scanned template with ALL source-check facts of the fixes; it is tmpl_gen as
-   soon as the NPSCALAR fix is in the tree *)
-Theorem C18_TGf_is_tmpl_gen : t_src_exact tmpl_gen = true -> TGf = tmpl_gen.
+(* the reject / legality theorems are about the code in /repo: TGf (the scanned template with all source-check facts set) IS tmpl_gen *)
+Theorem C18_TGf_is_tmpl_gen : TGf = tmpl_gen.
 Proof.
-  intro X. destruct C18_fix_flags_live as (_ & P & _). destruct C18_open_findings_state as (G & N).
+  destruct C18_fix_flags_live as (_ & P & _). destruct C18_open_findings_state as (G & N). destruct C18_open_findings_round9 as (X & _).
   rewrite tmpl_live3 at 2. rewrite P, G, N, X. reflexivity.
 Qed.
 
@@ -223,15 +221,6 @@ Theorem C18_illegal_rejected : forall k w, (k = KU w \/ k = KS w) -> 1 <= w <= 6
   exists ex, assign_array TGf pick_width_gen false fixed cap false (EPrim k) y = Raise ex.
 Proof. exact illegal_rejected. Qed.
 Print Assumptions C18_illegal_rejected.
-
-(* F-PY-NPSCALAR on the tree as it is (t_src_exact absent): [np.float64(300.0)] and [np.array([300., 1.])] into uint8[<=4] are C-cast *)
-Theorem C18_npscalar_wrap_refuted : forall q,
-  assign_array (set_src_exact false TGf) pick_width_gen q false 4 false (EPrim (KU 8)) (PList [PArr (DF 64) [PFloat 4643985272004935680]])
-  = Ok (PArr (DU 8) [PInt 44])
-  /\ assign_array (set_src_exact false TGf) pick_width_gen q false 4 false (EPrim (KU 8))
-       (PList [PArr (DF 64) [PFloat 4643985272004935680; PFloat 4607182418800017408]]) = Ok (PArr (DU 8) [PInt 44; PInt 1]).
-Proof. intro q. exact (conj (npscalar_wrap_refuted q) (nested_ndarray_wrap_refuted q)). Qed.
-Print Assumptions C18_npscalar_wrap_refuted.
 
 Theorem C18_tmpl_live3 : tmpl_gen = set_text_guard (t_text_guard tmpl_gen) (set_nd_only (t_precheck_nd_only tmpl_gen) (set_precheck (t_arr_precheck tmpl_gen) tmpl_gen)).
 Proof. exact tmpl_live3. Qed.
